@@ -5,6 +5,7 @@ package main
 // unknown names); what the operations then do is judged by the TLA+ trace specification.
 
 import (
+	"strings"
 	"math/rand"
 
 	"github.com/evolbioinfo/goalign/align"
@@ -219,6 +220,16 @@ func (g *heapGen) newObject(forceAlign bool) *Step {
 	used := map[string]bool{}
 	for i := 0; i < nrows; i++ {
 		nm := g.newName()
+		if i > 0 && (g.mode == "C01" || g.mode == "C19") && g.rng.Intn(5) == 0 {
+			// an earlier name of the same object with an affix (a, a_1; sp, xsp): renamings that add the affix meet it
+			prev := toIntsAny(rows[g.rng.Intn(i)].(map[string]interface{})["n"])
+			aff := [][]int{{'_', '1'}, {'x'}, {'.', '2'}}[g.rng.Intn(3)]
+			if g.rng.Intn(2) == 0 {
+				nm = append(append([]int{}, prev...), aff...)
+			} else {
+				nm = append(append([]int{}, aff...), prev...)
+			}
+		}
 		for used[string(i2b(nm))] {
 			nm = append(nm, int('a')+i)
 		}
@@ -228,8 +239,20 @@ func (g *heapGen) newObject(forceAlign bool) *Step {
 			l = g.lenChoice()
 		}
 		var s []int
-		if (g.mode == "C13" || g.mode == "C01") && i > 0 && g.rng.Intn(3) == 0 && kind == "align" {
+		if (g.mode == "C13" || g.mode == "C01") && i > 0 && g.rng.Intn(3) == 0 && (kind == "align" || g.mode == "C13") {
 			s = append([]int{}, toIntsAny(rows[g.rng.Intn(i)].(map[string]interface{})["s"])...) // duplicate row
+			if g.mode == "C13" && g.rng.Intn(2) == 0 {
+				// ... up to the wildcard: N / X where the other row has a gap and the other way round
+				wild := 'N'
+				if al == 0 {
+					wild = 'X'
+				}
+				for j, ch := range s {
+					if (ch == '-' || ch == int(wild)) && g.rng.Intn(2) == 0 {
+						s[j] = '-' + int(wild) - ch
+					}
+				}
+			}
 		} else {
 			s = g.seq(alpha, l)
 		}
@@ -507,6 +530,24 @@ func (g *heapGen) args(h *heapRun, op string, recv int, o *obj) *Step {
 	case "AppendSeqIdentifier":
 		a["id"] = toIface(s2i([]string{"", "x", "_1"}[g.rng.Intn(3)]))
 		a["right"] = g.rng.Intn(2) == 0
+		// one time in two, when a row's name is another row's name plus a prefix or a suffix, that affix: the new name of
+		// the one is the current name of the other (an index kept up to date row by row meets the collision half-way)
+		if g.rng.Intn(2) == 0 {
+			names := []string{}
+			o.sb.IterateChar(func(name string, _ []uint8) bool {
+				names = append(names, name)
+				return false
+			})
+			for _, x := range names {
+				for _, y := range names {
+					if len(y) > len(x) && len(x) > 0 && strings.HasPrefix(y, x) {
+						a["id"], a["right"] = toIface(s2i(y[len(x):])), true
+					} else if len(y) > len(x) && len(x) > 0 && strings.HasSuffix(y, x) {
+						a["id"], a["right"] = toIface(s2i(y[:len(y)-len(x)])), false
+					}
+				}
+			}
+		}
 	case "ShuffleSequences":
 		a["seed"] = f64(g.rng.Intn(1000))
 	case "FilterLength":
